@@ -14,7 +14,7 @@ def wellFormed (s : State) : Bool :=
 
 def diff (m i : State) : Option String :=
   let m := canon m; let i := canon i
-  firstSome [cmpField "names" m.names i.names, cmpField "forsale" m.forsale i.forsale,
+  allSome [cmpField "names" m.names i.names, cmpField "forsale" m.forsale i.forsale,
     cmpField "bids" m.bids i.bids, cmpField "inits" m.inits i.inits,
     cmpField "primary" m.primary i.primary, cmpField "bank" m.bank i.bank]
 
@@ -28,10 +28,10 @@ def check (j : Json) : Except String (Option String) := do
   if !wellFormed pre then throw "pre-state has duplicate keys"
   match step pre h op with
   | none =>
-    if ok then return some "outcome: model=failed impl=ok"
-    return (diff pre post).map (fun d => "failed message changed state: " ++ d)
+    if ok then return some "field=outcome model=failed impl=ok"
+    return (diff pre post).map (fun d => "failed-message-changed-state " ++ d)
   | some s' =>
-    if !ok then return some "outcome: model=ok impl=failed"
+    if !ok then return some "field=outcome model=ok impl=failed"
     return diff s' post
 
 end Driver.Rns
